@@ -2,13 +2,15 @@
 """Print the prompt for an independent mutation-seeding agent for one property and create its scratch worktree."""
 import json, os, subprocess, sys
 pid = sys.argv[1]
+ONE = len(sys.argv) > 2  # tools/seedprompt.py Cxx <i>: ask for one change only, files patch<i>.diff / demo<i>_test.go
+IDX = sys.argv[2] if ONE else None
 root = os.path.join(os.path.dirname(os.path.abspath(__file__)), "..")
 p = next(json.loads(l) for l in open(os.path.join(root, "properties.jsonl")) if json.loads(l)["id"] == pid)
 wt = "/tmp/seed-%s" % pid
 if not os.path.exists(wt):
     subprocess.check_call(["git", "-C", "/repo", "worktree", "add", "--detach", "-q", wt, "HEAD"])
 os.makedirs("/tmp/seed-%s-out" % pid, exist_ok=True)
-print(f"""You are given a scratch git worktree of the Go project mutagen (a file-synchronization and network-forwarding tool) at {wt}. Do all your work there and in {wt}-out; do not read or touch /repo or /verif (they are off limits), and do not use the network (there is none; for Go commands export GOFLAGS=-mod=mod GOPROXY=off).
+text = (f"""You are given a scratch git worktree of the Go project mutagen (a file-synchronization and network-forwarding tool) at {wt}. Do all your work there and in {wt}-out; do not read or touch /repo or /verif (they are off limits), and do not use the network (there is none; for Go commands export GOFLAGS=-mod=mod GOPROXY=off).
 
 A semantic property that must hold of this code base:
 
@@ -24,3 +26,11 @@ For each change i ∈ {{1,2}} deliver in {wt}-out/:
   * demo{'{i}'}_test.go (a Go test file, say which package directory it must be copied into) or demo{'{i}'}/main.go — a demonstration that FAILS with the change and PASSES without it;
   * a section in README.md: what the change is, why it breaks the property, what it needs in order to manifest, the exact commands to run the demonstration with and without the patch, and what you observed both ways; and the command(s) you used to confirm the existing tests still pass with the patch (run at least the tests of every package you touched and of the packages that import it: `go test -vet=off -count=1 ./pkg/...` is the full suite and takes a few minutes — run it once per patch; in this sandbox a few tests fail even on the unchanged tree because tests run as root and no agent bundle is built — pkg/agent TestExecutableForPlatform*, pkg/synchronization/core TestScan/TestTransition permission cases — and pkg/integration can fail spuriously with 'unable to acquire daemon lock' when several suites run at once: what matters is that no test changes status relative to the unchanged tree).
 Verify everything yourself before reporting: patch applies on a clean checkout (save your work with `git diff > file`, then `git checkout -- .` and `git apply file` — NEVER use `git stash`: the stash is shared with other people's worktrees of this repository), builds (`go build ./...`), demo fails with it and passes without it, existing tests pass with it. Leave the worktree clean (no patch applied, no demo files) when you finish. Your final message: a short summary of the two changes and the verification results.""")
+if ONE:
+    text = text.replace("produce TWO independent, realistic changes to the (non-test) source code, each of which BREAKS", "produce ONE realistic change to the (non-test) source code which BREAKS")
+    text = text.replace("Each should be", "It should be").replace(", in different functions/mechanisms from each other. Each must need", ". It must need")
+    text = text.replace("For each change i \u2208 {1,2} deliver", "Deliver (with i = %s)" % IDX).replace("the two changes", "the change")
+    text = text.replace("run it once per patch", "run it once")
+    text = text.replace("{i}", IDX).replace("(with i = %s) " % IDX, "")
+    text += "\nTime budget: aim to finish within about 20 minutes of work."
+print(text)
